@@ -178,8 +178,17 @@ def cases(draw):
                 lo, hi = (-1.0, -0.1) if i == j else (-0.3, 0.3)
             row.append(draw(fl(lo, hi)) if keep else 0.0)
         mat.append(row)
+    # one linear case in four is an oscillator in its first two components: events then fire several times
+    osc = kind == "lin" and n >= 2 and draw(st.integers(0, 3)) == 0
+    if osc:
+        w = draw(fl(2.0, 8.0))
+        mat[0][0], mat[0][1], mat[1][0], mat[1][1] = draw(fl(-0.2, 0.0)), w, -w, draw(fl(-0.2, 0.0))
+        for j in range(2, n):
+            mat[0][j] = mat[1][j] = 0.0
     v1 = [draw(fl(-1.0, 1.0)) for _ in range(n)]
     v2 = [draw(fl(-1.0, 1.0)) for _ in range(n)]
+    if osc:
+        v1[0] = v1[1] = 0.0
     if kind == "lv":
         v1 = [draw(fl(0.1, 1.0)) for _ in range(n)]
     use_args = draw(st.booleans())
@@ -218,6 +227,10 @@ def cases(draw):
     for _ in range(nev):
         events.append({"a": [draw(fl(-1.0, 1.0)) for _ in range(n)], "bt": draw(fl(-0.5, 0.5)), "c": draw(fl(-1.0, 1.0)),
                        "terminal": draw(st.integers(0, 3)) == 0, "direction": draw(st.sampled_from([-1, 0, 1]))})
+    if osc:
+        # a non-terminal level crossing of the oscillating component: several occurrences, (k, n) state arrays with k >= 2
+        first = {"a": [1.0] + [0.0] * (n - 1), "bt": 0.0, "c": draw(fl(-0.15, 0.15)), "terminal": False, "direction": draw(st.sampled_from([-1, 0, 1]))}
+        events = [first] + events[1:]
     ev_form = draw(st.sampled_from(["list", "tuple", "single"]))
     jac_mode = "none"
     if kind == "lin" and method in ("Radau", "BDF"):
